@@ -241,3 +241,72 @@ func (fa *FuncAn) storesTo(addrPat string) []*ssa.Store {
 }
 
 var _ = token.NoPos
+
+// trueExits: exits whose (single or indexed) boolean result may be true.
+func trueExits(fa *FuncAn, idx int) []Exit {
+	var out []Exit
+	for _, x := range fa.Exits() {
+		rs := RetResults(x.Ret)
+		if idx >= len(rs) {
+			continue
+		}
+		if v, known := fa.knownBool(rs[idx], x.In); !known || v {
+			out = append(out, x)
+		}
+	}
+	return out
+}
+
+func trueExitClass(idx int) ExitClass {
+	return func(fa *FuncAn, ret *ssa.Return, in *Edge) bool {
+		rs := RetResults(ret)
+		if idx >= len(rs) {
+			return false
+		}
+		v, known := fa.knownBool(rs[idx], in)
+		return !known || v
+	}
+}
+
+// ruleEqualityHelpers: the comparison helpers the check-lists rely on compare
+// what their names say (whole names, whole address lists), on every path to true.
+func ruleEqualityHelpers(w *World, c *Check, rule string) {
+	c.Rule(rule, "PrincipalName.Equal, HostAddress.Equal, HostAddressesContains and HostAddressesEqual return true only for equal lengths and element-wise equal contents", 7)
+	checkGuards(w, c, rule, "types.(PrincipalName).Equal", trueExitClass(0), []GuardSpec{
+		{Name: "same-component-count", Desc: "names with a different number of components are not equal (no prefix matches)", Main: []GuardPat{EqPass(`len\(recv\.NameString\)`, `len\(n\.NameString\)`)}},
+		{Name: "every-component", Desc: "a differing component ⇒ false", Main: []GuardPat{EqPass(`recv\.NameString\[\$i0\]`, `n\.NameString\[\$i0\]`)}, RejectForm: true},
+	})
+	if fn := w.Func("types.(PrincipalName).Equal"); fn != nil {
+		// the loop runs over all of the receiver's components
+		fa := NewFuncAn(w, fn)
+		all := false
+		for _, cd := range fa.Conds {
+			if cd.Kind == "gt" && cd.R == "$i0" && (fa.M(`len\(recv\.NameString\)`, cd.L) || fa.M(`len\(n\.NameString\)`, cd.L)) {
+				all = true
+			}
+		}
+		c.Decide(all, rule, FuncKey(fn), "all-components", w.Pos(fn.Pos()), "the comparison loop covers every component", "the loop bound is not the component count")
+	}
+	hfa, _ := checkGuards(w, c, rule, "types.(*HostAddress).Equal", trueExitClass(0), []GuardSpec{
+		{Name: "same-type", Desc: "addresses of different types are not equal", Main: []GuardPat{EqPass(`recv\.AddrType`, `a\.AddrType`)}},
+	})
+	if hfa != nil {
+		ok := false
+		for _, x := range trueExits(hfa, 0) {
+			if s := hfa.R.R(RetResults(x.Ret)[0]); hfa.M(`bytes\.Equal\((recv\.Address, a\.Address|a\.Address, recv\.Address)\)`, s) {
+				ok = true
+			} else if s != "true" {
+				ok = false
+				break
+			}
+		}
+		c.Decide(ok, rule, FuncKey(hfa.Fn), "whole-address", w.Pos(hfa.Fn.Pos()), "equal addresses have byte-wise equal address fields (whole slices)", "the positive result is not bytes.Equal(h.Address, a.Address)")
+	}
+	checkGuards(w, c, rule, "types.HostAddressesContains", trueExitClass(0), []GuardSpec{
+		{Name: "an-element-equals", Desc: "true only when some element equals the address", Main: []GuardPat{TruePass(`types\.\(\*HostAddress\)\.Equal\(h\[\$i0\], a\)`)}},
+	})
+	checkGuards(w, c, rule, "types.HostAddressesEqual", trueExitClass(0), []GuardSpec{
+		{Name: "same-length", Desc: "lists of different length are not equal", Main: []GuardPat{EqPass(`len\(h\)`, `len\(a\)`)}},
+		{Name: "every-element-found", Desc: "an element of one list missing from the other ⇒ false", Main: []GuardPat{TruePass(`φ\(false\|true\)`)}, RejectForm: true},
+	})
+}
